@@ -49,11 +49,16 @@ Plan gen_generic(u64 run_seed, int tier, std::vector<i64> cfg, int slots, const 
 // ================================================================== C12 frequent items
 template<typename T, typename W> struct FiExec {
   typedef ds::frequent_items_sketch<T, W, std::hash<T>, std::equal_to<T>, talloc<T>> S;
-  struct Node { std::unique_ptr<S> sk; std::map<i64, u64> w; };
+  // weights are kept in quarters: the floating-point weight type is fed multiples of 1/4 (exact in a double, so are medians and sums), integer types whole numbers
+  static const bool FRACTIONAL = std::is_floating_point<W>::value; static const u64 SCALE = FRACTIONAL ? 4 : 1;
+  static W fromq(u64 q) { return FRACTIONAL ? static_cast<W>(static_cast<double>(q) / 4.0) : static_cast<W>(q); }
+  static u64 toq(W x) { return FRACTIONAL ? static_cast<u64>(std::llround(static_cast<double>(x) * 4.0)) : static_cast<u64>(x); }
+  struct Node { std::unique_ptr<S> sk; std::map<i64, u64> w; i64 lg_max = 0, lg_lo = 0, lg_hi = 0; };   // lg_max: the configuration this object must report (copy assignment brings the source's along); lg_lo / lg_hi: smallest / largest map size among everything merged into it
   Ctx& ctx; const Plan& p; std::string fam;
   FiExec(Ctx& c, const Plan& pl, const char* f): ctx(c), p(pl), fam(f) {}
   std::string fp(const char* cls) const { return "C12|" + fam + "|" + cls; }
-  S make() const { return S(static_cast<uint8_t>(p.cfg[1]), static_cast<uint8_t>(p.cfg[2]), std::equal_to<T>(), talloc<T>(1)); }
+  S make(i64 lg_max) const { return S(static_cast<uint8_t>(lg_max), static_cast<uint8_t>(std::min<i64>(p.cfg[2], lg_max)), std::equal_to<T>(), talloc<T>(1)); }
+  i64 lg_of(size_t node) const { return node == 2 ? std::max<i64>(3, p.cfg[1] + (p.cfg[1] >= 6 ? -2 : 2)) : p.cfg[1]; }   // the third object has another maximum map size
   static i64 item_of(i64 start, i64 j, i64 pattern) {   // skewed, uniform, heavy-last / heavy-first orders
     switch (pattern & 3) { case 0: { u64 s = static_cast<u64>(start * 131 + j); u64 r = splitmix64(s); int z = 0; while ((r & 1) && z < 10) { r >>= 1; z++; } return z * 7 + static_cast<i64>(r % 3); }   // geometric: few heavy items
       case 1: { u64 s = static_cast<u64>(start * 17 + j); return static_cast<i64>(splitmix64(s) % 400); }
@@ -63,35 +68,37 @@ template<typename T, typename W> struct FiExec {
   void check(Node& n, const char* after) {
     const S& s = *n.sk; const std::string w = std::string(" after ") + after;
     u64 total = 0; for (auto& kv : n.w) total += kv.second;
-    ctx.require(static_cast<u64>(s.get_total_weight()) == total, fp("total-weight").c_str(), std::to_string(s.get_total_weight()) + " vs " + std::to_string(total) + w);
-    const u64 maxerr = static_cast<u64>(s.get_maximum_error());
+    ctx.require(toq(s.get_total_weight()) == total, fp("total-weight").c_str(), std::to_string(s.get_total_weight()) + " vs " + std::to_string(total) + w);
+    const u64 maxerr = toq(s.get_maximum_error());
+    ctx.require(s.get_epsilon() == S::get_epsilon(static_cast<uint8_t>(n.lg_max)), fp("epsilon-not-that-of-the-configured-map-size").c_str(), hexd(s.get_epsilon()) + " vs " + hexd(S::get_epsilon(static_cast<uint8_t>(n.lg_max))) + " for lg_max " + std::to_string(n.lg_max) + w);
     std::vector<i64> probe_items; for (auto& kv : n.w) probe_items.push_back(kv.first); for (i64 x = 0; x < 16; x++) probe_items.push_back(1000000 + x);
     for (i64 x : probe_items) {
       const T item = Item<T>::make(x); auto it = n.w.find(x); const u64 truth = it == n.w.end() ? 0 : it->second;
-      const u64 lb = static_cast<u64>(s.get_lower_bound(item)), ub = static_cast<u64>(s.get_upper_bound(item)), est = static_cast<u64>(s.get_estimate(item));
+      const u64 lb = toq(s.get_lower_bound(item)), ub = toq(s.get_upper_bound(item)), est = toq(s.get_estimate(item));
       if (lb > truth) ctx.fail(fp("lower-bound-above-true-weight"), "item " + std::to_string(x) + " lb=" + std::to_string(lb) + " true=" + std::to_string(truth) + w);
       if (ub < truth) ctx.fail(fp("upper-bound-below-true-weight"), "item " + std::to_string(x) + " ub=" + std::to_string(ub) + " true=" + std::to_string(truth) + w);
       ctx.require(lb <= est && est <= ub, fp("estimate-outside-bounds").c_str(), "item " + std::to_string(x) + w);
       ctx.require(ub - lb == maxerr, fp("ub-minus-lb-not-max-error").c_str(), "item " + std::to_string(x) + " ub-lb=" + std::to_string(ub - lb) + " max_error=" + std::to_string(maxerr) + w);
     }
     // the purge median is exact while the map is no larger than the sample size
-    if (0.75 * static_cast<double>(1ULL << p.cfg[1]) <= 1024) ctx.require(static_cast<double>(maxerr) <= s.get_epsilon() * static_cast<double>(total), fp("max-error-above-epsilon-times-weight").c_str(), std::to_string(maxerr) + " > " + hexd(s.get_epsilon()) + "*" + std::to_string(total) + w);
+    // after merges the error is the sum of the parts' errors, each within the epsilon of its own map size: the bound that follows is the epsilon of the smallest map merged in
+    if (0.75 * static_cast<double>(1ULL << n.lg_hi) <= 1024) ctx.require(static_cast<double>(maxerr) <= S::get_epsilon(static_cast<uint8_t>(n.lg_lo)) * static_cast<double>(total), fp("max-error-above-epsilon-times-weight").c_str(), std::to_string(maxerr) + " > " + hexd(s.get_epsilon()) + "*" + std::to_string(total) + w);
     if (maxerr > 0) ctx.probe("fi_purged");
   }
   void query(Node& n, i64 sel) {
-    const S& s = *n.sk; std::vector<u64> ths = { 0, static_cast<u64>(s.get_maximum_error()) };
+    const S& s = *n.sk; std::vector<u64> ths = { 0, toq(s.get_maximum_error()) };
     std::vector<u64> ws; for (auto& kv : n.w) ws.push_back(kv.second); std::sort(ws.begin(), ws.end());
     if (!ws.empty()) { u64 t = ws[static_cast<size_t>(sel) % ws.size()]; ths.push_back(t); ths.push_back(t + 1); if (t) ths.push_back(t - 1); ths.push_back(ws.back()); }
     for (u64 t0 : ths) {
       // the guarantee only exists at or above the maximum error: an untracked item may weigh up to that much and cannot be listed
-      const u64 t = std::max<u64>(t0, static_cast<u64>(s.get_maximum_error()));
-      auto nfn = s.get_frequent_items(ds::NO_FALSE_NEGATIVES, static_cast<W>(t)); auto nfp = s.get_frequent_items(ds::NO_FALSE_POSITIVES, static_cast<W>(t));
+      const u64 t = std::max<u64>(t0, toq(s.get_maximum_error()));
+      auto nfn = s.get_frequent_items(ds::NO_FALSE_NEGATIVES, fromq(t)); auto nfp = s.get_frequent_items(ds::NO_FALSE_POSITIVES, fromq(t));
       std::set<std::string> in_nfn; W prev = 0; bool first = true;
       for (auto& r : nfn) { in_nfn.insert(Item<T>::str(r.get_item())); if (!first) ctx.require(r.get_estimate() <= prev, fp("rows-not-sorted-descending").c_str(), ""); prev = r.get_estimate(); first = false; }
       for (auto& kv : n.w) if (kv.second > t) ctx.require(in_nfn.count(Item<T>::str(Item<T>::make(kv.first))) != 0, fp("no-false-negatives-misses-item").c_str(), "item " + std::to_string(kv.first) + " weight " + std::to_string(kv.second) + " threshold " + std::to_string(t));
       // thresholds below the maximum error: an item heavier than max(threshold, maximum error) is necessarily tracked with an upper bound above the
       // threshold, so it must still be listed (a threshold of 0 or 1 after a purge is the ordinary "give me everything you have" call)
-      if (t0 < t) { auto low = s.get_frequent_items(ds::NO_FALSE_NEGATIVES, static_cast<W>(t0)); std::set<std::string> in_low; for (auto& r : low) in_low.insert(Item<T>::str(r.get_item()));
+      if (t0 < t) { auto low = s.get_frequent_items(ds::NO_FALSE_NEGATIVES, fromq(t0)); std::set<std::string> in_low; for (auto& r : low) in_low.insert(Item<T>::str(r.get_item()));
         for (auto& kv : n.w) if (kv.second > t) ctx.require(in_low.count(Item<T>::str(Item<T>::make(kv.first))) != 0, fp("no-false-negatives-misses-item-at-low-threshold").c_str(), "item " + std::to_string(kv.first) + " weight " + std::to_string(kv.second) + " threshold " + std::to_string(t0) + " maximum error " + std::to_string(t));
         ctx.probe("threshold_below_maximum_error"); }
       first = true;
@@ -105,7 +112,7 @@ template<typename T, typename W> struct FiExec {
     ctx.fault("interleaved_read");
   }
   void run() {
-    std::vector<Node> nodes(3); for (Node& n : nodes) n.sk.reset(new S(make()));
+    std::vector<Node> nodes(3); for (size_t i = 0; i < nodes.size(); i++) { nodes[i].lg_max = nodes[i].lg_lo = nodes[i].lg_hi = lg_of(i); nodes[i].sk.reset(new S(make(nodes[i].lg_max))); }
     int idx = 0;
     for (const Step& s : p.steps) {
       ctx.begin_step(idx++, s.kind);
@@ -113,10 +120,11 @@ template<typename T, typename W> struct FiExec {
       switch (s.kind) {
         case A_BATCH: { const i64 count = s.c / 64, pat = s.c % 64;
           for (i64 j = 0; j < count; j++) { i64 x = item_of(s.b, j, pat); u64 wt = ((pat >> 2) & 3) == 0 ? 1 : ((pat >> 2) & 3) == 1 ? static_cast<u64>(1 + (x % 5)) : ((pat >> 2) & 3) == 2 ? (x % 7 == 0 ? 0 : 3) : static_cast<u64>(1 + j % 11);
-            n.sk->update(Item<T>::make(x), static_cast<W>(wt)); if (wt) n.w[x] += wt; else ctx.probe("zero_weight_update"); }
+            n.sk->update(Item<T>::make(x), fromq(wt)); if (wt) n.w[x] += wt; else ctx.probe("zero_weight_update"); }
           break; }
         case A_MERGE: { Node& src = nodes[static_cast<size_t>(s.b) % nodes.size()]; if (&src == &n) break;
-          if (s.c & 1) { n.sk->merge(std::move(*src.sk)); for (auto& kv : src.w) n.w[kv.first] += kv.second; src.sk.reset(new S(make())); src.w.clear(); }
+          n.lg_lo = std::min(n.lg_lo, src.lg_lo); n.lg_hi = std::max(n.lg_hi, src.lg_hi);
+          if (s.c & 1) { n.sk->merge(std::move(*src.sk)); for (auto& kv : src.w) n.w[kv.first] += kv.second; src.sk.reset(new S(make(src.lg_max))); src.w.clear(); src.lg_lo = src.lg_hi = src.lg_max; }
           else { n.sk->merge(*src.sk); for (auto& kv : src.w) n.w[kv.first] += kv.second; }
           ctx.nontrivial = true; ctx.probe("merge"); break; }
         case A_SERDE: { auto b = n.sk->serialize(0, typename Item<T>::serde());
@@ -124,11 +132,11 @@ template<typename T, typename W> struct FiExec {
           else n.sk.reset(new S(S::deserialize(b.data(), b.size(), typename Item<T>::serde(), std::equal_to<T>(), talloc<T>(1)))); ctx.fault("checkpoint_restore"); break; }
         case A_QUERY: query(n, s.b); break;
         case A_REFUSED: refused(*n.sk); break;
-        case A_COPY: { Node& d = nodes[static_cast<size_t>(s.b) % nodes.size()]; if (&d != &n) { d.sk.reset(new S(*n.sk)); d.w = n.w; } break; }
+        case A_COPY: { Node& d = nodes[static_cast<size_t>(s.b) % nodes.size()]; if (&d != &n) { if (s.c & 1) *d.sk = *n.sk; else d.sk.reset(new S(*n.sk)); d.w = n.w; d.lg_max = n.lg_max; d.lg_lo = n.lg_lo; d.lg_hi = n.lg_hi; ctx.probe((s.c & 1) ? "copy_assign" : "copy_construct"); } break; }
         default: break;
       }
       for (Node& x : nodes) check(x, a_step_name(s.kind));
-      ctx.t(static_cast<u64>(n.sk->get_total_weight())); ctx.t(static_cast<u64>(n.sk->get_num_active_items()));
+      ctx.t(toq(n.sk->get_total_weight())); ctx.t(static_cast<u64>(n.sk->get_num_active_items()));
     }
   }
   template<typename WW = W, typename std::enable_if<std::is_signed<WW>::value, int>::type = 0> void refused(S& s) {
@@ -140,12 +148,12 @@ template<typename T, typename W> struct FiExec {
 struct C12World: World {
   const char* name() const override { return "c12"; }
   const char* step_name(int k) const override { return a_step_name(k); }
-  std::string family_of(const Plan& p) const override { return p.cfg.empty() || p.cfg[0] == 0 ? "fi<i64>" : "fi<string>"; }
+  std::string family_of(const Plan& p) const override { static const char* n[] = { "fi<i64>", "fi<string>", "fi<string,double>" }; return p.cfg.empty() ? "?" : n[p.cfg[0] % 3]; }
   Plan generate(u64 run_seed, int tier) override { Rng rc(run_seed, "cfg"); i64 mx = rc.range(3, tier ? 10 : 8);
-    return gen_generic(run_seed, tier, { static_cast<i64>(rc.below(2)), mx, rc.range(3, mx) }, 3, { {A_BATCH, 45}, {A_MERGE, 20}, {A_SERDE, 10}, {A_QUERY, 15}, {A_REFUSED, 3}, {A_COPY, 7} }, tier ? 4000 : 1500); }
+    return gen_generic(run_seed, tier, { static_cast<i64>(rc.below(3)), mx, rc.range(3, mx) }, 3, { {A_BATCH, 45}, {A_MERGE, 20}, {A_SERDE, 10}, {A_QUERY, 15}, {A_REFUSED, 3}, {A_COPY, 7} }, tier ? 4000 : 1500); }
   void execute(const Plan& p, Ctx& ctx) override {
     alloc_state().reset_counters(); alloc_state().budget = static_cast<size_t>(1) << 31;
-    if (p.cfg[0] == 0) FiExec<int64_t, int64_t>(ctx, p, "fi<i64>").run(); else FiExec<std::string, uint64_t>(ctx, p, "fi<string>").run();
+    if (p.cfg[0] % 3 == 0) FiExec<int64_t, int64_t>(ctx, p, "fi<i64>").run(); else if (p.cfg[0] % 3 == 1) FiExec<std::string, uint64_t>(ctx, p, "fi<string>").run(); else FiExec<std::string, double>(ctx, p, "fi<string,double>").run();
     if (!alloc_state().errors.empty()) ctx.fail("C12|allocator-misuse", alloc_state().errors[0]);
   }
 };
@@ -239,12 +247,13 @@ template<typename W> struct CmExec {
 struct C14World: World {
   const char* name() const override { return "c14"; }
   const char* step_name(int k) const override { return a_step_name(k); }
-  std::string family_of(const Plan& p) const override { static const char* n[] = { "countmin<u64>", "countmin<i64>", "countmin<double>" }; return p.cfg.empty() ? "?" : n[p.cfg[0] % 3]; }
+  std::string family_of(const Plan& p) const override { static const char* n[] = { "countmin<u64>", "countmin<i64>", "countmin<double>", "countmin<u32>", "countmin<float>" }; return p.cfg.empty() ? "?" : n[p.cfg[0] % 5]; }
   Plan generate(u64 run_seed, int tier) override { Rng rc(run_seed, "cfg");
-    return gen_generic(run_seed, tier, { static_cast<i64>(rc.below(3)), static_cast<i64>(rc.below(6)), static_cast<i64>(rc.below(6)), static_cast<i64>(rc.below(3)) }, 3, { {A_BATCH, 45}, {A_MERGE, 28}, {A_SERDE, 10}, {A_REFUSED, 7}, {A_COPY, 10}, {A_QUERY, 5} }, 1500); }
+    return gen_generic(run_seed, tier, { static_cast<i64>(rc.below(5)), static_cast<i64>(rc.below(6)), static_cast<i64>(rc.below(6)), static_cast<i64>(rc.below(3)) }, 3, { {A_BATCH, 45}, {A_MERGE, 28}, {A_SERDE, 10}, {A_REFUSED, 7}, {A_COPY, 10}, {A_QUERY, 5} }, 1500); }
   void execute(const Plan& p, Ctx& ctx) override {
     alloc_state().reset_counters(); alloc_state().budget = static_cast<size_t>(1) << 31;
-    switch (p.cfg[0] % 3) { case 0: CmExec<uint64_t>(ctx, p, "countmin<u64>").run(); break; case 1: CmExec<int64_t>(ctx, p, "countmin<i64>").run(); break; default: CmExec<double>(ctx, p, "countmin<double>").run(); break; }
+    switch (p.cfg[0] % 5) { case 0: CmExec<uint64_t>(ctx, p, "countmin<u64>").run(); break; case 1: CmExec<int64_t>(ctx, p, "countmin<i64>").run(); break; case 2: CmExec<double>(ctx, p, "countmin<double>").run(); break;
+      case 3: CmExec<uint32_t>(ctx, p, "countmin<u32>").run(); break; default: CmExec<float>(ctx, p, "countmin<float>").run(); break; }   // the 4-byte weight types: field widths of the image differ from the 8-byte ones
     if (!alloc_state().errors.empty()) ctx.fail("C14|allocator-misuse", alloc_state().errors[0]);
   }
 };
@@ -320,6 +329,13 @@ template<typename T> struct TdExec {
           else n.sk.reset(new S(S::deserialize(b.data(), b.size(), talloc<T>(1)))); ctx.fault("checkpoint_restore"); break; }
         case A_QUERY: check_read(n, s.b); break;
         case A_COMPRESS: n.sk->compress();
+          if ((s.c & 12) == 4) {   // one value, a compress point (query / compress / unbuffered image / restore of the one-value image), a few more values that stay in the buffer, read
+            const uint16_t k3 = static_cast<uint16_t>(10 + (s.b % 5) * 40); S one(k3, talloc<T>(1)); const T v0 = value_of(s.b, 0, 64, 2); one.update(v0); T mn = v0, mx = v0;
+            switch ((s.c >> 4) & 3) { case 0: (void)one.get_quantile(0.5); break; case 1: one.compress(); break; case 2: (void)one.serialize(0, false); break; default: { auto b1 = one.serialize(0, true); one = S::deserialize(b1.data(), b1.size(), talloc<T>(1)); break; } }
+            const i64 more = 1 + s.b % 9; std::vector<T> all(1, v0); for (i64 j = 1; j <= more; j++) { const T v = value_of(s.b, j, 64, 2); one.update(v); all.push_back(v); if (v < mn) mn = v; if (v > mx) mx = v; }
+            ctx.require(one.get_total_weight() == all.size() && one.get_quantile(0) == mn && one.get_quantile(1) == mx, fp("one-value-then-buffered|extreme-quantiles").c_str(), "quantile(0)=" + hexd(one.get_quantile(0)) + " min " + hexd(mn) + ", quantile(1)=" + hexd(one.get_quantile(1)) + " max " + hexd(mx) + " after " + std::to_string(more) + " more values");
+            std::sort(all.begin(), all.end()); const T med = one.get_quantile(0.5); ctx.require(med >= mn && med <= mx && (all.size() < 3 || (med > mn || all[all.size() / 2] == mn)), fp("one-value-then-buffered|median").c_str(), hexd(med));
+            ctx.check(); ctx.probe("one_value_then_buffered"); }
           if ((s.c & 12) == 12) {   // a long run of one-value digests merged into one large digest (the aggregator of many tiny producers), on digests of its own: k from a
             // wider range than the run's, since the scale function only degenerates for small batches at large k
             static const int ks2[] = { 50, 100, 200, 250, 400 }; const uint16_t k2 = static_cast<uint16_t>(ks2[static_cast<size_t>(s.b) % 5]);
@@ -425,6 +441,22 @@ struct C16World: World {
           (void)min_k;
           check(ctx, res, "union get_result", true, max_k);
           if (s.c & 8) { auto bytes = un.serialize(); UN back = UN::deserialize(bytes.data(), bytes.size(), ds::serde<int64_t>(), talloc<int64_t>(1)); Node r2; r2.in = res.in; r2.total = res.total; r2.n = res.n; r2.may_dup = res.may_dup; r2.sk.reset(new S(back.get_result())); check(ctx, r2, "restored union get_result", true, max_k); ctx.fault("checkpoint_restore"); }
+          // two differentials on the same inputs: (1) the union fed by reference and the union fed by move, (2) a union that is reset and used again and a fresh
+          // one. Which items survive may differ (the paths visit slots in different orders); the shape of the result - k, n, number of samples - and the
+          // total adjusted weight may not
+          { struct Shape { std::string s; double sum; };
+            auto snap = [&](const S& r) { Shape o; o.sum = 0; for (auto it = r.begin(); it != r.end(); ++it) o.sum += (*it).second; o.s = std::to_string(r.get_k()) + "/" + std::to_string(r.get_n()) + "/" + std::to_string(r.get_num_samples()); return o; };
+            auto run_union = [&](UN& u, bool by_move, const std::vector<Node*>& ord) { std::set<Node*> u2; rnd.rng.seed(mix(p.run_seed, static_cast<u64>(idx) * 16 + 3));
+              for (Node* x : ord) { if (!u2.insert(x).second) continue; if (by_move) { S tmp(*x->sk); u.update(std::move(tmp)); } else u.update(*x->sk); } return snap(u.get_result()); };
+            auto same = [&](const Shape& x, const Shape& y) { return x.s == y.s && sum_close(x.sum, y.sum); };
+            try {
+              UN ul(max_k, talloc<int64_t>(1)), ur(max_k, talloc<int64_t>(1)); const Shape rl = run_union(ul, false, order), rr = run_union(ur, true, order);
+              if (!same(rl, rr)) ctx.fail("C16|union-fed-by-move-differs-from-union-fed-by-reference", "k/n/samples, total by reference " + rl.s + ", " + hexd(rl.sum) + " by move " + rr.s + ", " + hexd(rr.sum));
+              ul.reset(); std::vector<Node*> second = { &b }; UN fresh(max_k, talloc<int64_t>(1)); const Shape r1 = run_union(ul, (s.c & 16) != 0, second), r2 = run_union(fresh, (s.c & 16) != 0, second);
+              if (!same(r1, r2)) ctx.fail("C16|union-reused-after-reset-differs-from-fresh-union", "k/n/samples, total reused " + r1.s + ", " + hexd(r1.sum) + " fresh " + r2.s + ", " + hexd(r2.sum));
+              ctx.probe("union_differentials");
+            } catch (const std::logic_error&) { ctx.probe("union_get_result_threw"); }   // the recorded finding: reported through the model check above, not here
+            ctx.check(); }
           ctx.nontrivial = true; ctx.probe("union"); break; }
         case A_SERDE: { auto b = n.sk->serialize(); if (s.c & 2) n.sk.reset(new S(restore_stream(ctx, b, s.c, "C16", [&](std::istream& is) { return S::deserialize(is, ds::serde<int64_t>(), talloc<int64_t>(1)); }))); else n.sk.reset(new S(S::deserialize(b.data(), b.size(), ds::serde<int64_t>(), talloc<int64_t>(1)))); ctx.fault("checkpoint_restore"); break; }
         case A_REFUSED: { int t = 0; const double bad[] = { -1.0, std::numeric_limits<double>::quiet_NaN(), std::numeric_limits<double>::infinity() };
